@@ -1,15 +1,14 @@
 #!/bin/sh
 # usage: seed_eval2.sh <patch.diff> <prop> [<prop>...]
-# Like seed_eval.sh but without touching /repo: the patch is applied to a scratch copy of /repo's working tree and the checks
-# read that copy through PYVC_REPO (every reader of the repository honours it).  Evidence is backed up and restored.
+# Like seed_eval.sh but without touching /repo or /verif/evidence: the patch is applied to a scratch copy of /repo's working tree, the checks
+# read that copy through PYVC_REPO (every reader of the repository honours it) and write their evidence to a scratch directory (VERIF_EVIDENCE_DIR).
 patch="$1"; shift
-S=/tmp/sev_$$; rm -rf $S; mkdir -p $S
-(cd /repo && git ls-files -z | xargs -0 cp --parents -t $S) || exit 9
-(cd $S && patch -p1 -s --no-backup-if-mismatch < "$patch") || { echo "patch does not apply"; rm -rf $S; exit 9; }
-rm -rf /tmp/ev_backup_$$; cp -r /verif/evidence /tmp/ev_backup_$$
+S=/tmp/sev_$$; rm -rf $S; mkdir -p $S/repo $S/evidence
+(cd /repo && git ls-files -z | xargs -0 cp --parents -t $S/repo) || exit 9
+(cd $S/repo && patch -p1 -s --no-backup-if-mismatch < "$patch") || { echo "patch does not apply"; rm -rf $S; exit 9; }
 for p in "$@"; do
-  out=$(cd /verif && PYVC_REPO=$S ./check "$p" quick 2>&1); code=$?
-  echo "== $p exit=$code"; echo "$out" | grep -E "VIOLATION|UNDECIDED|KNOWN|CRASH| quick:" | cut -c1-300 | head -8
+  out=$(cd /verif && PYVC_REPO=$S/repo VERIF_EVIDENCE_DIR=$S/evidence ./check "$p" quick 2>&1); code=$?
+  echo "== $p exit=$code"; echo "$out" | grep -E "VIOLATION|UNDECIDED|KNOWN|CRASH| quick:" | sed "s#$S/evidence#<scratch-evidence>#g" | cut -c1-300 | head -8
 done
-rm -rf /verif/evidence; mv /tmp/ev_backup_$$ /verif/evidence; rm -rf $S
+rm -rf $S
 (cd /verif && .venv/bin/python -m leanalg.genlean >/dev/null 2>&1)
